@@ -24,18 +24,18 @@ Proof.
   apply (in_map (fun x => folder ++ x)). exact Hn.
 Qed.
 
-Theorem load_reads_root m n : In n part_names -> in_manifest m n = true -> In n (load_reads m).
+Theorem load_reads_root foreign m n : In n part_names -> in_manifest m n = true -> In n (load_reads foreign m).
 Proof.
   intros Hn Hm. unfold load_reads. right. apply in_or_app. left.
   apply (parts_under_in m [] n Hn Hm).
 Qed.
 
-Theorem load_reads_object m p mtv n : In (p, mtv) m -> classify m p = IsObject -> In n part_names ->
-  in_manifest m (p ++ n) = true -> In (p ++ n) (load_reads m).
+Theorem load_reads_object foreign m p mtv n : In (p, mtv) m -> classify foreign m p = IsObject -> In n part_names ->
+  in_manifest m (p ++ n) = true -> In (p ++ n) (load_reads foreign m).
 Proof.
   intros Hin Hc Hn Hm. unfold load_reads. right. apply in_or_app. right.
   apply in_flat_map. exists (p, mtv). split; [exact Hin|]. cbn [fst]. rewrite Hc. now apply parts_under_in.
 Qed.
 
-Theorem load_reads_manifest m : In sMANIFEST (load_reads m).
+Theorem load_reads_manifest foreign m : In sMANIFEST (load_reads foreign m).
 Proof. now left. Qed.
